@@ -175,6 +175,7 @@ pub fn profile_for(prop: &str) -> Profile {
             p.acts_per_run = (0, 2);
             p.acts_per_op = (1, 4);
             p.stale_pct = 15;
+            p.entry_w = [5, 2, 2, 3];
         }
         "C15" => {
             p.name = "once";
